@@ -30,6 +30,14 @@ func (x *Exec) call(fr *frame, st *State, c *ssa.Call) Value {
 // callCommon performs a call; st is updated in place.  Returns the result value (nil if none).
 func (x *Exec) callCommon(fr *frame, st *State, cc *ssa.CallCommon, fnv Value, args []Value, site ssa.Instruction) Value {
 	if b, ok := cc.Value.(*ssa.Builtin); ok && !cc.IsInvoke() {
+		if fr.top && x.fc != nil && x.fc.AtCall != nil {
+			for _, c := range x.fc.AtCall[b.Name()] {
+				g := x.evalGoalClause(fr, st, c, x.loopOpts(fr, nil))
+				n := x.count(fr.name + "#atcall." + b.Name())
+				x.vc.oblige(&Obligation{Name: fmt.Sprintf("%s#atcall.%s@%d", fr.name, b.Name(), n), Kind: "pre", Func: fr.name,
+					Guard: st.reach, Goal: g, Src: "before " + b.Name() + ": " + c.Src, Pos: fmt.Sprintf("%s:%d", c.File, c.Line)})
+			}
+		}
 		return x.builtin(fr, st, b, cc, args, site)
 	}
 	if cc.IsInvoke() {
@@ -89,7 +97,7 @@ func (x *Exec) callCommon(fr *frame, st *State, cc *ssa.CallCommon, fnv Value, a
 			}
 		}
 	}
-	if fc := x.prog.contracts.Funcs[name]; fc != nil && fc.HasSpec() && !x.forceInline {
+	if fc := x.prog.contracts.Funcs[name]; fc != nil && fc.HasSpec() && (!x.forceInline || fc.Abstract) {
 		if fc.CallersInline {
 			return x.inlineWithFacts(fr, st, callee, fc, args, bind)
 		}
